@@ -257,7 +257,7 @@ def rule_globals(repo, res, modules=("parser", "decoder", "encoder", "lexer", "t
 
 
 # ---------------------------------------------------------------- C08
-def rule_shared_class_state(repo, res, families=("PVLParser", "PVLDecoder", "PVLEncoder")):
+def rule_shared_class_state(repo, res, families=("PVLParser", "PVLDecoder", "PVLEncoder", "PVLGrammar", "Token")):
     """E-SHARED: an object created in a class body (NAME = Something(...), [], {}, set()) is one object for every
     instance of the class and its subclasses.  A method that writes through it -- self.NAME.attr = ..., self.NAME[k] =
     ..., self.NAME.append(...) -- changes what every other instance sees: the result of one encoder/parser then depends
@@ -307,6 +307,51 @@ def rule_shared_class_state(repo, res, families=("PVLParser", "PVLDecoder", "PVL
                                         "other instance (results depend on which instances were built or used before)",
                                         where=f"pvl/{repo.classes[c].module.name}.py:{a.lineno}"))
     res.oblige("E-SHARED", "no method writes through a mutable object created in a class body", ok=True, nontrivial=False)
+
+
+def rule_memo(repo, res, modules=("token", "decoder", "parser", "encoder", "grammar", "lexer", "collections")):
+    """E-MEMO: results that depend on more than the call's hashable arguments must not be memoised.
+    functools.lru_cache / cache on a *method* keys the entry on ``self`` -- for Token (a str subclass) that is the
+    text alone, for the other classes it is identity, while the answer depends on the grammar/decoder/options the
+    object carries; lru_cache without typed=True around a value constructor conflates 1, 1.0 and True.  Either way a
+    later call gets the answer computed for another dialect, option set or type."""
+    n = 0
+    CACHES = ("lru_cache", "functools.lru_cache", "cache", "functools.cache", "cached_property", "functools.cached_property")
+
+    def is_cache(e):
+        f = e.func if isinstance(e, ast.Call) else e
+        return norm(f) in CACHES
+    for mname in modules:
+        if mname not in repo.modules:
+            continue
+        mod = repo.module(mname)
+        for cname, cnode in mod.classes.items():
+            for fn in [x for x in cnode.body if isinstance(x, ast.FunctionDef)]:
+                for d in fn.decorator_list:
+                    if is_cache(d):
+                        n += 1
+                        res.oblige("E-MEMO", f"{cname}.{fn.name} is not memoised on self", ok=False)
+                        res.add(Finding("E-MEMO", f"{cname}.{fn.name}", f"@{norm(d, 40)} on a method",
+                                        f"{cname}.{fn.name} is memoised with @{norm(d, 40)}: the cache key is `self` -- "
+                                        + ("for a Token that is its text only (str hash/eq), so tokens of different grammars/decoders share an "
+                                           "answer" if "Token" in repo.mro(cname) or cname == "Token" else
+                                           "while the result also depends on the state the object carries (grammar, decoder, options)")
+                                        + ": a later call gets the answer computed for another dialect or configuration",
+                                        where=f"pvl/{mname}.py:{fn.lineno}"))
+                # lru_cache(...)(callable) stored on the instance / used inline
+                for x in ast.walk(fn):
+                    if isinstance(x, ast.Call) and isinstance(x.func, ast.Call) and is_cache(x.func):
+                        typed = any(k.arg == "typed" and isinstance(k.value, ast.Constant) and k.value.value is True for k in x.func.keywords)
+                        n += 1
+                        res.oblige("E-MEMO", f"{cname}.{fn.name}: `{norm(x, 50)}` is typed", ok=typed)
+                        if not typed:
+                            res.add(Finding("E-MEMO", f"{cname}.{fn.name}", f"untyped cache around {norm(x.args[0], 30) if x.args else '?'}",
+                                            f"{cname}.{fn.name} wraps `{norm(x.args[0], 40) if x.args else '?'}` in {norm(x.func, 40)}: without "
+                                            "typed=True the key compares by ==, so 1, 1.0 and True (and equal values of different classes) "
+                                            "share one cached result -- an integer written earlier comes back for a later real",
+                                            where=f"pvl/{mname}.py:{x.lineno}"))
+    res.oblige("E-MEMO", "no method of the reader/writer classes is memoised on self; no untyped cache wraps a value constructor", ok=True,
+               nontrivial=False)
 
 
 def rule_e1(repo, res):
